@@ -1559,7 +1559,13 @@ func (ck *Check) nodeListImmutability(rule string) {
 	// DeepCopy results are the caller's own.
 	isObjPtr := func(t types.Type) bool {
 		pt, ok := t.(*types.Pointer)
-		return ok && (strings.HasSuffix(typeName(pt.Elem()), "v1.Node") || strings.HasSuffix(typeName(pt.Elem()), "v1.Pod"))
+		if !ok {
+			return false
+		}
+		if _, named := pt.Elem().(*types.Named); !named {
+			return false // a pointer to a slice of nodes is not a node
+		}
+		return strings.HasSuffix(typeName(pt.Elem()), "v1.Node") || strings.HasSuffix(typeName(pt.Elem()), "v1.Pod")
 	}
 	var sharedObj func(v ssa.Value, seen map[ssa.Value]bool) string
 	sharedObj = func(v ssa.Value, seen map[ssa.Value]bool) string {
